@@ -184,8 +184,18 @@ def main():
     out.append("/-- every 3-byte input `[a,b,c]` (of all 2^24) on which `translate_codon` is not `X`, with its value:")
     out.append("    `(a, b, c, aa)`; sorted.  2-byte inputs `xy` behave as `xyN`, 1-byte inputs give `X` (checked")
     out.append("    exhaustively by the translator), other lengths are `InvalidCodonLength`. -/")
-    out.append("def codonTable : List (Nat × Nat × Nat × Nat) := [\n  " +
-               ",\n  ".join(", ".join(f"({a}, {bb}, {c}, {v})" for (a, bb, c), v in cod[i:i + 6]) for i in range(0, len(cod), 6)) + "]")
+    def rows(part):
+        return "[\n  " + ",\n  ".join(", ".join(f"({a}, {bb}, {c}, {v})" for (a, bb, c), v in part[i:i + 6]) for i in range(0, len(part), 6)) + "]"
+    if len(cod) <= 600:
+        out.append("def codonTable : List (Nat × Nat × Nat × Nat) := " + rows(cod))
+    else:
+        # far more entries than a genetic code has (a changed look-up answers for bytes outside the
+        # alphabet): still emitted faithfully, in pieces the elaborator can take, so that the model
+        # keeps building and the theorems over the table are what fails
+        parts = [cod[i:i + 300] for i in range(0, len(cod), 300)]
+        for j, part in enumerate(parts):
+            out.append(f"def codonTablePart{j} : List (Nat × Nat × Nat × Nat) := " + rows(part))
+        out.append("def codonTable : List (Nat × Nat × Nat × Nat) := List.flatten [" + ", ".join(f"codonTablePart{j}" for j in range(len(parts))) + "]")
     out.append("")
     out.append("/-- number of 3-byte inputs (of 2^24) that do not translate to `X` -/")
     out.append(f"def codonNonX : Nat := {len(cod)}")
